@@ -147,6 +147,13 @@ func (c *Ctx) convxRun() []*opsVerdict {
 						case manager == "TypeSafeVariantOperations" && !safeOK:
 							bad("%s succeeds (%s %s); the type-safe manager permits only the numeric widenings and reports every other conversion as an error", where, oc.tag, oc.expr)
 						}
+						// a conversion to a wide type never goes through a narrower one on the way
+						narrow := map[string][]string{"Double": {"ToFloat(", "conv<float32>("}, "Long": {"ToInteger(", "conv<int>(", "conv<int32>("}}
+						for _, frag := range narrow[t2] {
+							if strings.Contains(oc.expr, frag) && !(t1 == "Float" && t2 == "Double") && !(t1 == "Integer" && t2 == "Long") {
+								bad("%s yields %s: the value passes through a narrower type (%s) on its way to %s and loses precision or range", where, oc.expr, strings.TrimSuffix(frag, "("), t2)
+							}
+						}
 						if spec, ok := convUnsafeOracle[t1][t2]; ok && len(oc.conds) == 0 {
 							if want := xlateOracle(spec.expr); normConv(oc.expr) != normConv(want) {
 								bad("%s yields %s; the statement's convention is %s", where, oc.expr, want)
